@@ -53,7 +53,8 @@ G_USERINFO = [None, "u", "u:p", "u@v", "u:p@q:r", "%40", "\u00e9", "\\"]
 G_HOST = ["a.test", "A.Test", "a.test.", "1.2.3.4", "01.2.3.4", "1.2.3.4.5", "[::1]",
           "[::1%25eth0]", "[::1%eth0]", "[fe80::1%25]", "[v1.x]", "[::g]", "\u00e9.test",
           "xn--9ca.test", "a b", "a\\b", "*", "-a-", "a" * 64 + ".test", ""]
-G_PORT = [None, "", "0", "80", "080", "65535", "65536", "99999999999", "8a", "-1", " 80"]
+G_PORT = [None, "", "0", "80", "080", "65535", "65536", "99999999999", "8a", "-1", " 80",
+          "\uff18\uff10", "+80"]  # digits int() takes but the grammar does not: fullwidth "80", a signed number
 G_PATH = [None, "/", "/a/./b/../c", "/..", "/../..", "//", "/%7e%7E", "/%zz", "/\u00e9",
           "/a b", "/a\\b", ";p"]
 G_QUERY = [None, "", "a=b", "?", "%41%zz", "\u00e9", "#", "%41%4\u0661"]  # last: '%' + hex digit + NON-ASCII decimal digit
